@@ -113,6 +113,14 @@ class BoundMeth:
         self.lv = lv
 
 
+class PropertyRead:
+    """Marker: the attribute is a @property of an object; the expression evaluator calls it."""
+
+    def __init__(self, recv, name):
+        self.recv = recv
+        self.name = name
+
+
 class GenVal:
     """Result of running a generator to completion: output as a set plus count,
     and optionally as a sequence."""
